@@ -20,8 +20,9 @@ import CpModel.Gen.C01Tables
   * `ResponseBody.__set__`: `ValueError` for a `str` and for a *list* containing a `str` (the generated
     table `Gen.C01.bodyKindsRefused`; a tuple is not examined); `prepare_iter`: bytes → `[value]` / `[]`,
     `None` → `[]`, an object with `read` → `file_generator`.
-  * `Response.finalize`: invalid status → `HTTPError(500)` → error page; streaming → body untouched;
-    no-body status → `_flush_body` (iterate to the end, types ignored); explicit `Content-Length` → body
+  * `Response.finalize`: invalid status → `HTTPError(500)` → error page; no-body status → `_flush_body`
+    (iterate to the end, types ignored; also for a streamed response where the running code tests the status
+    first: generated table `Gen.Pipeline.noBodyStreamRanges`); streaming → body untouched; explicit `Content-Length` → body
     untouched; otherwise `collapse_body` = `b''.join(body)`, which first consumes the whole iterator and
     then rejects a non-bytes item (`TypeError`).  Any exception → `handle_error` → 500 error page.
   * an `on_end_resource` hook that leaves a non-bytes `output_status` / `header_list` item behind (it runs in
@@ -275,6 +276,11 @@ def statusCode (st : Option Nat) : Nat :=
   | some 0 => falsyStatusCode
   | some c => c
 
+/-- statuses for which `finalize` drops the body (generated tables, read from the live code without / with
+    `response.stream`) -/
+def noBodyFor (stream : Bool) (code : Nat) : Bool :=
+  inRanges (if stream then noBodyStreamRanges else noBodyRanges) code
+
 /-- `_do_respond` from the handler on, `finalize`, `on_end_resource`, `handle_error` -/
 def requestCore (p : Plan) : Req :=
   match bodySet p.body with
@@ -282,8 +288,7 @@ def requestCore (p : Plan) : Req :=
   | some b =>
     let code := statusCode p.status
     if !inRanges validStatusRanges code then { code := 500, ent := .errorPage, tampered := true }
-    else if p.stream then { code := code, ent := .page b, tampered := true }
-    else if inRanges noBodyRanges code then
+    else if noBodyFor p.stream code then
       -- _flush_body(): consume(iter(self.body)); self.body = b''
       match b.iter with
       | none => errorResp {}
@@ -291,6 +296,7 @@ def requestCore (p : Plan) : Req :=
         let d := drainAll i
         if d.1 then errorResp d.2.2.ctr
         else { code := code, ent := .page (.seq []), tampered := true, ctr := d.2.2.ctr }
+    else if p.stream then { code := code, ent := .page b, tampered := true }
     else if p.cl then { code := code, ent := .page b, tampered := true }
     else
       -- collapse_body(): b''.join(self.body)
